@@ -241,7 +241,10 @@ func c01Searches(p *run.Part, tier string) []*seqx.Search {
 		mk(CfgDef3, "+ab-merged", depth-1), mk(CfgDef3, "+abc", depth-1), mk(CfgDef3, "+a-spread", depth-1), mk2(mk, depth+2), mkEmpty(mk, CfgDef3, depth-1),
 		// replicas whose clocks run ahead of their heads (small gaps; a thousand ticks and beyond 2^53): an honest entry may be
 		// stamped any number of ticks after its predecessors
-		mk(CfgGap3, "", depth-2), mk(CfgClk3, "", depth-2)}
+		mk(CfgGap3, "", depth-2), mk(CfgClk3, "", depth-2),
+		// five writers: two entries that share one new parent, one of them with a second new parent that nothing else
+		// leads to, all arriving in ONE merge (and, from the same start state, in two)
+		mkFanIn(mk)}
 }
 
 func init() {
@@ -285,5 +288,16 @@ func mkEmpty(mk func(cfg *seqx.Config, prefix string, d int) *seqx.Search, cfg *
 	s := mk(cfg, "", depth)
 	s.Alphabet = WithEmpty(Alphabet(3, false))
 	s.Check = "bfs"
+	return s
+}
+
+var cfgFive = &seqx.Config{Name: "five", Writers: []int{0, 1, 2, 3, 4}, PC: 4}
+
+func mkFanIn(mk func(cfg *seqx.Config, prefix string, d int) *seqx.Search) *seqx.Search {
+	Prefixes["+fan-in"] = []seqx.Op{{K: "app", A: 0}, {K: "app", A: 1}, {K: "join", A: 2, B: 0}, {K: "app", A: 2},
+		{K: "join", A: 3, B: 0}, {K: "join", A: 3, B: 1}, {K: "app", A: 3}, {K: "join", A: 3, B: 2}}
+	Configs[cfgFive.Name] = cfgFive
+	s := mk(cfgFive, "+fan-in", 2)
+	s.Alphabet = []seqx.Op{{K: "join", A: 4, B: 3}, {K: "join", A: 4, B: 2}, {K: "join", A: 4, B: 0}, {K: "join", A: 4, B: 1}, {K: "join", A: 2, B: 3}, {K: "join", A: 0, B: 3}, {K: "join", A: 1, B: 3}, {K: "app", A: 4}}
 	return s
 }
